@@ -85,7 +85,9 @@ Inductive op :=
 | OLazy (path : string)
 | OLazyDel (path : string)
 | OCount (g ret : string)                       (* get_count(g) returned ret *)
-| OCallF (g n ret : string).                    (* call_func(g, n) returned ret *)
+| OCallF (g n ret : string)                     (* call_func(g, n) returned ret *)
+| ODef (path : string).                         (* (round 3) defined_file_pos[path] = ...: a function / json NAME is defined; says
+                                                   nothing about a file: @lazy and @if functions are defined without one *)
 
 Record state := mkSt {
   heap : list (nat * list string);              (* Function objects: id -> lines *)
@@ -95,9 +97,10 @@ Record state := mkSt {
   called : list (string * string);              (* functions_called: path -> prefix *)
   upriv : list (string * string);               (* user_private_functions *)
   lazy : list string;                           (* keys of lazy_func *)
-  counts : list (string * nat)                  (* private_function_count *)
+  counts : list (string * nat);                 (* private_function_count *)
+  defs : list string                            (* keys of defined_file_pos: every defined name, with or without a file *)
 }.
-Definition st0 : state := mkSt [] [] [] [] [] [] [] [].
+Definition st0 : state := mkSt [] [] [] [] [] [] [] [] [].
 
 Definition dec_nat (n : nat) : string := z_dec (Z.of_nat n).
 Definition count_of (g : string) (st : state) : nat :=
@@ -109,35 +112,38 @@ Definition pset (g n : string) (id : nat) (l : list (string * list (string * nat
 Definition step (c : cfg) (st : state) (o : op) : option state :=
   match o with
   | ONew id cmds =>
-      Some (mkSt (nset id (fsplit cmds) (heap st)) (funcs st) (privs st) (jsons st) (called st) (upriv st) (lazy st) (counts st))
+      Some (mkSt (nset id (fsplit cmds) (heap st)) (funcs st) (privs st) (jsons st) (called st) (upriv st) (lazy st) (counts st) (defs st))
   | OApp id cmds =>
       match nget id (heap st) with
-      | Some ls => Some (mkSt (nset id (ls ++ fsplit cmds)%list (heap st)) (funcs st) (privs st) (jsons st) (called st) (upriv st) (lazy st) (counts st))
+      | Some ls => Some (mkSt (nset id (ls ++ fsplit cmds)%list (heap st)) (funcs st) (privs st) (jsons st) (called st) (upriv st) (lazy st) (counts st) (defs st))
       | None => None
       end
   | OFSet p id =>
-      Some (mkSt (heap st) (aset p id (funcs st)) (privs st) (jsons st) (called st) (upriv st) (lazy st) (counts st))
+      Some (mkSt (heap st) (aset p id (funcs st)) (privs st) (jsons st) (called st) (upriv st) (lazy st) (counts st) (defs st))
   | OPSet g n id =>
-      Some (mkSt (heap st) (funcs st) (pset g n id (privs st)) (jsons st) (called st) (upriv st) (lazy st) (counts st))
+      Some (mkSt (heap st) (funcs st) (pset g n id (privs st)) (jsons st) (called st) (upriv st) (lazy st) (counts st) (defs st))
   | OJSet p t b =>
-      Some (mkSt (heap st) (funcs st) (privs st) (aset p (t, b) (jsons st)) (called st) (upriv st) (lazy st) (counts st))
+      Some (mkSt (heap st) (funcs st) (privs st) (aset p (t, b) (jsons st)) (called st) (upriv st) (lazy st) (counts st) (defs st))
   | OCalled p pre =>
-      Some (mkSt (heap st) (funcs st) (privs st) (jsons st) (aset p pre (called st)) (upriv st) (lazy st) (counts st))
+      Some (mkSt (heap st) (funcs st) (privs st) (jsons st) (aset p pre (called st)) (upriv st) (lazy st) (counts st) (defs st))
   | OUPriv p pre =>
-      Some (mkSt (heap st) (funcs st) (privs st) (jsons st) (called st) (aset p pre (upriv st)) (lazy st) (counts st))
+      Some (mkSt (heap st) (funcs st) (privs st) (jsons st) (called st) (aset p pre (upriv st)) (lazy st) (counts st) (defs st))
   | OLazy p =>
       Some (mkSt (heap st) (funcs st) (privs st) (jsons st) (called st) (upriv st)
-                 (if mem_str p (lazy st) then lazy st else (lazy st ++ [p])%list) (counts st))
+                 (if mem_str p (lazy st) then lazy st else (lazy st ++ [p])%list) (counts st) (defs st))
   | OLazyDel p =>
       Some (mkSt (heap st) (funcs st) (privs st) (jsons st) (called st) (upriv st)
-                 (filter (fun x => negb (String.eqb x p)) (lazy st)) (counts st))
+                 (filter (fun x => negb (String.eqb x p)) (lazy st)) (counts st) (defs st))
   | OCount g ret =>
       let n := count_of g st in
       if String.eqb ret (dec_nat n)
-      then Some (mkSt (heap st) (funcs st) (privs st) (jsons st) (called st) (upriv st) (lazy st) (aset g (S n) (counts st)))
+      then Some (mkSt (heap st) (funcs st) (privs st) (jsons st) (called st) (upriv st) (lazy st) (aset g (S n) (counts st)) (defs st))
       else None
   | OCallF g n ret =>
       if String.eqb ret (call_func_str (c_ns c) (c_private c) g n) then Some st else None
+  | ODef p =>
+      Some (mkSt (heap st) (funcs st) (privs st) (jsons st) (called st) (upriv st) (lazy st) (counts st)
+                 (if mem_str p (defs st) then defs st else (defs st ++ [p])%list))
   end.
 
 Fixpoint run_from (c : cfg) (st : state) (ops : list op) : option state :=
@@ -279,6 +285,19 @@ Definition checks (c : cfg) (b : bdata) (st : state) (f : list (string * nat)) :
             | [] => if b_delayed b then Some BDelayed else None
             end
   end.
+
+(* (round 3) a name that is DEFINED (has a defined_file_pos entry) but for which build() will write no function file:
+   @lazy / @if functions, and json names.  A reference to such a name that JMC cannot expand in place (call before the
+   definition, `schedule function`, a function-typed argument passed by name, `name() with ...`) must be refused:
+   check_called looks the name up in the assembled FUNCTION table, not in the table of defined names. *)
+Definition fileless (c : cfg) (b : bdata) (st : state) (p : string) : bool :=
+  mem_str p (defs st) &&
+  match assemble c b st with
+  | inr hf => negb (amem p (snd hf))
+  | inl _ => false
+  end.
+Definition fileless_called (c : cfg) (b : bdata) (st : state) : list string :=
+  map fst (filter (fun e : string * string => fileless c b st (fst e) && negb (mem_str (first_seg (fst e)) (c_links c))) (called st)).
 
 (* stage 3: compiling.build writes the files *)
 Definition q : string := String (ascii_of_nat 34) EmptyString.
